@@ -50,13 +50,15 @@ class Model:
     def __init__(self):
         self.b = {n: "orig" for n in BINDINGS}
         self.stack = []
+        self.adds = frozenset()
 
     def arm(self):
         self.b["pickle.load"] = "check"
 
-    def activate(self):
+    def activate(self, adds=()):
         for n in BINDINGS:
             self.b[n] = "ml"
+        self.adds = frozenset(adds)
 
     def remove(self):
         for n in BINDINGS:
@@ -91,7 +93,21 @@ def probe(name, data=FLAGGED):
     return out
 
 
+ADDABLE_PROBES = {
+    "fractions.Fraction": b"cfractions\nFraction\n(I1\nI2\ntR.",
+    "collections.Counter": b"ccollections\nCounter\n)R.",
+}
 _DIST = {}
+
+
+def _in_builtin_allowlist(dotted):
+    import fickling.ml as ml
+
+    module, name = dotted.rsplit(".", 1)
+    return name in _BASE_SNAPSHOT.setdefault("s", {m: set(v) for m, v in ml.ML_ALLOWLIST.items()}).get(module, ())
+
+
+_BASE_SNAPSHOT = {}
 
 
 def _distinguishes(state):
@@ -127,7 +143,7 @@ def step(model, ctxs, st):
         model.arm()
     elif kind == "activate":
         hook.activate_safe_ml_environment(also_allow=list(st[1]) or None)
-        model.activate()
+        model.activate(st[1])
     elif kind == "remove":
         hook.remove_hook()
         model.remove()
@@ -169,6 +185,16 @@ def step(model, ctxs, st):
                 )
             # "precisely the protection that was in force": the binding must be the protection
             # the model names, not merely some protection
+            if state == "ml":
+                # a name some activation may add, but the current one did not: the protection in
+                # force is this activation's, not an earlier one's
+                for name, data in ADDABLE_PROBES.items():
+                    if name in model.adds or _in_builtin_allowlist(name):
+                        continue
+                    got, detail = probe(n, data)
+                    if got != "refused":
+                        return (f"{n} is under the ML environment activated with additions {sorted(model.adds)} "
+                                f"but a pickle calling {name} through it was {got} {detail or ''}")
             other = ONLY_CHECK_FLAGS if state == "check" else ONLY_ML_REFUSES
             if not _distinguishes(state):
                 continue
